@@ -54,6 +54,16 @@ pub fn catalogue(w: &World, tier: &str, seed: u64, reps: usize) -> Vec<FaultCase
                 match m.label.as_str() {
                     "wire shares" | "output wire shares" | "lambda" => {
                         let slots = some_slots(m);
+                        // correlated alterations of two positions (would pass a check that only
+                        // authenticates an aggregate of the shares)
+                        if slots.len() >= 2 {
+                            let pairs: Vec<(usize, usize)> = if slots.len() >= 3 { vec![(slots[0], slots[1]), (slots[0], slots[slots.len() - 1]), (slots[1], slots[slots.len() - 1])] } else { vec![(slots[0], slots[1])] };
+                            for (pi, (a, b)) in pairs.into_iter().enumerate() {
+                                push(one(c, m.to, &m.label, m.k, What::TreeMulti(vec![TreeMut { path: vec![a, 0, 0], op: MutOp::FlipBit }, TreeMut { path: vec![b, 0, 0], op: MutOp::FlipBit }]), s ^ (a * 31 + b) as u64), format!("flip-two-bits:pair{pi}"), &m.label, vec![m.to], false, None);
+                                push(one(c, m.to, &m.label, m.k, What::Tree(TreeMut { path: vec![], op: MutOp::SwapElems(a, b) }), s ^ (a * 37 + b) as u64), format!("swap-two-authenticated-entries:pair{pi}"), &m.label, vec![m.to], false, None);
+                                push(one(c, m.to, &m.label, m.k, What::TreeMulti(vec![TreeMut { path: vec![a, 0, 1], op: MutOp::XorU128(0x5a5a_0000_1111_2222_3333_4444_5555_6666) }, TreeMut { path: vec![b, 0, 1], op: MutOp::XorU128(0x5a5a_0000_1111_2222_3333_4444_5555_6666) }]), s ^ (a * 41 + b) as u64), format!("same-offset-on-two-macs:pair{pi}"), &m.label, vec![m.to], false, None);
+                            }
+                        }
                         for (pi, i) in pick(&slots, thorough).into_iter().enumerate() {
                             let pc = if pi == 0 { "first" } else { "later" };
                             push(one(c, m.to, &m.label, m.k, What::Tree(TreeMut { path: vec![i, 0, 0], op: MutOp::FlipBit }), s ^ i as u64), format!("flip-bit:{pc}"), &m.label, vec![m.to], false, None);
@@ -63,6 +73,9 @@ pub fn catalogue(w: &World, tier: &str, seed: u64, reps: usize) -> Vec<FaultCase
                     }
                     "labels" => {
                         let slots = some_slots(m);
+                        if slots.len() >= 2 {
+                            push(one(c, m.to, &m.label, m.k, What::Tree(TreeMut { path: vec![], op: MutOp::SwapElems(slots[0], slots[slots.len() - 1]) }), s ^ 77), "swap-two-labels".to_string(), &m.label, vec![m.to], false, None);
+                        }
                         for (pi, i) in pick(&slots, thorough).into_iter().enumerate() {
                             let pc = if pi == 0 { "first" } else { "later" };
                             push(one(c, m.to, &m.label, m.k, What::Tree(TreeMut { path: vec![i, 0], op: MutOp::FlipBit }), s ^ i as u64), format!("flip-label:{pc}"), &m.label, vec![m.to], false, None);
